@@ -68,6 +68,14 @@ func genC12(g *G, n int, out io.Writer) {
 		prof := ProfileSpec{Name: fmt.Sprintf("c12_%d", i), Atoms: c.Atoms, Paths: c.Paths, Validations: c.Validations}
 		c.Profile = prof.Render()
 		c.Data = c.Graph.RenderFlat()
+		// source maps for some, all or none of the nodes: results, traces and sub-results then carry location nodes
+		if i%4 != 0 {
+			var ids []string
+			for _, n := range c.Graph {
+				ids = append(ids, n.Id)
+			}
+			c.Data = withLexical(g, c.Data, ids, []float64{0.3, 0.6, 1.0}[i%3])
+		}
 		enc.Encode(c)
 	}
 }
